@@ -243,14 +243,13 @@ Lemma icy_layer_cells : forall sconv conv bytes r, icy_layer sconv conv bytes = 
 Proof.
   intros sconv conv bytes r H. unfold icy_layer in H.
   destruct (read_string sconv bytes) as [[title rs]| | |]; try discriminate.
-  destruct (shorter rs 6); [discriminate|].
+  destruct (shorter rs 41); [discriminate|].
   destruct (2 <? byte_at rs 5); [discriminate|].
   destruct (take 41 rs) as [[hd body]|]; [|discriminate].
   cbv zeta in H.
   destruct (byte_at hd 0 =? 1).
   - destruct (shorter body 16); [discriminate|]. injection H as <-. left. split; reflexivity.
-  - destruct (18446744073709551616 <=? _); [discriminate|].
-    destruct (N.of_nat (length bytes) <? _); [discriminate|].
+  - destruct (N.of_nat (length body) <? _); [discriminate|].
     apply omap_done in H. destruct H as [ev [H ->]]. right. exists body. cbn. split; [reflexivity|exact H].
 Qed.
 
@@ -282,7 +281,7 @@ Proof.
   destruct (le16 a0 a1 =? INVISIBLE_SHORT); [cbn; lia|].
   match goal with |- context [if ?c =? INVISIBLE then _ else _] => destruct (c =? INVISIBLE) end; [cbn; lia|].
   destruct (negb (N.land (le16 a0 a1) SHORT_DATA =? 0)).
-  - destruct (chk && shorter r 3); [exact I|].
+  - destruct (chk && shorter r 4); [exact I|].
     destruct (take 4 r) as [[f r']|] eqn:T; [|exact I]. apply take_rest_length in T. cbn [length]. lia.
   - destruct (chk && shorter r 14); [exact I|].
     destruct (take 14 r) as [[f r']|] eqn:T; [|exact I]. apply take_rest_length in T. cbn [length]. lia.
@@ -352,14 +351,13 @@ Proof.
     destruct (read_string str_icy bytes) as [[title rs]| | |] eqn:RS; try discriminate.
     apply read_string_done in RS. destruct RS as [raw ->].
     assert (U : is_utf8 (str_icy raw)) by (rewrite str_icy_lossy; apply str_lossy_is_utf8_proof).
-    destruct (shorter rs 6); [discriminate|].
+    destruct (shorter rs 41); [discriminate|].
     destruct (2 <? byte_at rs 5); [discriminate|].
     destruct (take 41 rs) as [[hd body]|]; [|discriminate].
     cbv zeta in H.
     destruct (byte_at hd 0 =? 1).
     + destruct (shorter body 16); [discriminate|]. injection H as <-. exact U.
-    + destruct (18446744073709551616 <=? _); [discriminate|].
-      destruct (N.of_nat (length bytes) <? _); [discriminate|].
+    + destruct (N.of_nat (length body) <? _); [discriminate|].
       apply omap_done in H. destruct H as [ev [_ ->]]. exact U.
 Qed.
 
